@@ -9,7 +9,7 @@ import gzip, json, os, subprocess, sys, tempfile
 PREDICATES = {
     # an unknown identifier substituted into the EXTENDERS clause of a generated rule is accepted
     "C02-F1": lambda case, clause: clause == "accepted-ill-formed" and case.get("kind") == "corrupt" and case.get("op") == "replace"
-    and case.get("rep") == "zz" and bool(case.get("ext")),
+    and case.get("rep") == "zz" and (bool(case.get("ext")) or case.get("origin") == "file"),
     # a Prepeptide on the frame-shifted gene of the 'codonstart' layout
     "C10-F1": lambda case, clause: case.get("layout") == "codonstart" and "prepeptide" in case.get("extras", ())
     and clause in ("genbank-description-differs", "genbank-not-a-fixed-point", "json-description-differs", "json-not-a-fixed-point"),
